@@ -102,7 +102,8 @@ def empty_value_projects(rng, n):
                 inherits[l] = t
         files = {}
         for l in locs:
-            pairs = [("empty", ""), ("nothing", "$t(empty)")]
+            # (in the default locale `nothing` is ordinary text: a default locale without a value is an error, not a fallback)
+            pairs = [("empty", ""), ("nothing", "N-en" if l == "en" else rng.pick(["$t(empty)", "$t(empty)", "N-" + l]))]
             for k in ("suffix", "badge"):
                 r = rng.below(6) if l != "en" else 0
                 if r == 0:
